@@ -57,6 +57,7 @@ class TreeDriver:
         self.nuid = 0
         self.flags = set()
         self.ever = set()           # every path that was ever present
+        self.displaced = []         # maps overwritten under their name
 
     # ---- values
     def new_handle(self):
@@ -68,6 +69,17 @@ class TreeDriver:
         if spec == 'h':
             h = self.new_handle()
             return h, MNode('h', h)
+        if isinstance(spec, list) and spec[0] == 'existing':
+            return spec[1], spec[2]
+        if isinstance(spec, list) and spec[0] == 'reuse':
+            # a map object that was part of the tree until another value
+            # was assigned under its name (it is in no map any more, but
+            # may still record where it used to be)
+            if self.displaced:
+                real, node = self.displaced.pop(spec[1] % len(self.displaced))
+                self.flags.add('displaced-map-assigned-again')
+                return real, node
+            spec = 'm'
         m = self.desper.ResourceMap()
         node = MNode('m', m)
         if isinstance(spec, list):
@@ -113,6 +125,14 @@ class TreeDriver:
                 self.flags.add('implicit-map')
             target = child
         old = target.children.get(names[-1])
+        if old is not None and old.kind == 'm' and old is not node:
+            try:
+                holder = self.root
+                for name in names[:-1]:
+                    holder = holder.maps[name]
+                self.displaced.append((holder.maps[names[-1]], old))
+            except KeyError:
+                pass
         if old is not None and old.kind != node.kind:
             self.flags.add('handle-to-map' if node.kind == 'm'
                            else 'map-to-handle')
@@ -139,6 +159,19 @@ class TreeDriver:
         finally:
             self.root, self.model = saved_root, saved_model
         self.flags.add('set-via-submap')
+        return True
+
+    def mount(self, src, dst):
+        """The sub-map object found at ``src`` is ALSO assigned under
+        ``dst`` (one map object reachable in two places; its back-link can
+        only name one of them, which is not judged)."""
+        node = self.find(src)
+        if node is None or node.kind != 'm' or src == dst \
+                or (dst + '/').startswith(src + '/') \
+                or (src + '/').startswith(dst + '/'):
+            return False
+        self.set(dst, ['existing', self.real_map(src), node])
+        self.flags.add('map-mounted-twice')
         return True
 
     def reassign(self, key):
